@@ -58,8 +58,11 @@ def witness_F09(scratch, k):
 
 def witness_F16(scratch, k):
     """page query interleaved with a crawl batch reports a page that never belonged to the webentity"""
-    w = json.load(open(os.path.join(ROOT, k["witness"])))
-    ans = _run_lines(scratch, w["lines"])
-    final = [a for l, a in zip(w["lines"], ans) if l == "co step 1" and a.startswith("done ")]
-    probes = [a for l, a in zip(w["lines"], ans) if l.startswith("? pages")]
-    return bool(final) and w["phantom"] in final[-1] and not any(w["phantom"] in p for p in probes)
+    ok = True
+    for wf in [k["witness"]] + list(k.get("more_witnesses", [])):
+        w = json.load(open(os.path.join(ROOT, wf)))
+        ans = _run_lines(scratch, w["lines"])
+        final = [a for l, a in zip(w["lines"], ans) if l.startswith("co step ") and a.startswith("done ") and w["phantom"] in a]
+        probes = [a for l, a in zip(w["lines"], ans) if l.startswith("? ")]
+        ok = ok and bool(final) and bool(probes) and not any(w["phantom"] in p for p in probes)
+    return ok
